@@ -1,4 +1,5 @@
 import GoldModel.Model.Tree
+import GoldModel.Model.Outline
 import GoldModel.Drive.Common
 /-! canonical dumps (format identical to harness/src/dump.rs) -/
 namespace Gold.Drive
@@ -17,12 +18,23 @@ def parseTok (w : String) : Option Tok :=
 
 def parseToks (ws : List String) : Option (List Tok) := ws.mapM parseTok
 
+/-- node kinds whose dump carries the selection range (the harness prints it from the node's name token) -/
+def selKinds : List String :=
+  ["class", "module", "const_decl", "type_decl", "gvar_decl", "proc_decl", "func_decl", "param_decl", "lvar_decl"]
+
 partial def dumpTree : Tree → String
   | .leaf t => s!"(#leaf {t.kind.name} {escape t.value} {rngStr t.rng})"
-  | .node k i r _ kids =>
-    "(" ++ k ++ " " ++ escape i ++ " " ++ rngStr r ++ String.join (kids.map (fun c => " " ++ dumpTree c)) ++ ")"
+  | .node k i r s _ kids =>
+    "(" ++ k ++ " " ++ escape i ++ " " ++ rngStr r ++ (if selKinds.contains k then " @" ++ rngStr s else "") ++ String.join (kids.map (fun c => " " ++ dumpTree c)) ++ ")"
 
 def diagsStr (d : List Diag) : String :=
   "|".intercalate (d.map (fun x => rngStr x.rng ++ ":" ++ escape x.msg))
+
+partial def outlineStr (l : List Outline.Sym) : String :=
+  ",".intercalate (l.map fun s =>
+    escape s.name ++ "|" ++ s.kind ++ "|" ++ rngStr s.rng ++ "|" ++ rngStr s.sel ++
+      (match s.kids with
+       | some c => "[" ++ outlineStr c ++ "]"
+       | none => ""))
 
 end Gold.Drive
